@@ -24,7 +24,8 @@ EXPLANATION = (
     'an untrusted (~) ident; (WIRE.1) the assignment is the pre_registered slot, returns early on a '
     'pre-assigned class, and the slot broadcast precedes the verdict send on every path of the accept '
     'function; (MPT.2) every OK reply is recorded in the ok mask the xreply_ok criterion reads; '
-    'function; (WIRE.2) every rule item read while compiling carries a hook that rebuilds the rules.')
+    'function; (WIRE.2) every rule item read while compiling carries a hook that rebuilds the rules.'
+    ' Rounds 8-9: (BND.4/TAB.10/BND.5) shared: field capacities admit the maximum, wildcard forms, strlcpy contract; (MPT.1) path-sensitive append count.')
 ASSUMPTIONS = ['clang 14 CFG', 'fnmatch/irc_check_mask semantics are trusted (C13 not claimed)']
 
 CRITERIA = {
